@@ -834,6 +834,14 @@ def _fault_bases(tier: str) -> List[Tuple[str, dict]]:
             drv = [Op("call", 1, 1, 1), Op("call", 2, 1, 1), Op("call", 4, 1, 1), Op("call", 2, 1, 1)]
             out.append(("method-" + variant + ("-async" if isasync else ""),
                         Prog(fns, cons, [], [cls], [{"cls": 1, "st0": 0}], [drv])))
+    # a method whose preconditions were weakened twice (three groups along a hierarchy): a fault in a condition of ANY
+    # group is the caller's, whatever the later groups would say
+    for bits in ((True, True, True), (False, True, True), (False, False, True), (False, False, False)):
+        for isasync in (False, True):
+            p = member_prog("method", False, [[1], [2], [3]], 1, 0, bits, [True], ["default"], False, isasync, ncalls=2,
+                            tag="fault-base")
+            if p is not None:
+                out.append(("method-3groups-{}{}".format("".join("t" if b else "f" for b in bits), "-async" if isasync else ""), p))
     return out
 
 
@@ -860,6 +868,24 @@ def fam_fault(tier: str, rng: random.Random) -> Iterator[dict]:
                 p["fault"] = {"at": k1, "kind": kind, "n": 0, "more": [k2]}
                 p["tag"] = "fault2-{}-k{}-k{}-{}".format(name, k1, k2, kind)
                 yield p
+
+
+def fam_break_raise(tier: str, rng: random.Random) -> Iterator[dict]:
+    """C11 / C03: a public method (sync / async), a property setter or __setattr__ that leaves the invariant broken AND
+    raises (update-then-validate code): the caller gets the body's exception itself; the next public call finds the
+    broken invariant."""
+    for members, brk in (([("method", 2), ("method", 0), ("protected", 1)], 1), ([("setter", 2), ("method", 0)], 1),
+                         ([("setattr", 2), ("method", 0)], 1), ([("getter", 2), ("method", 0)], 1)):
+        for inv_on in INV_COMBOS:
+            if members[0][0] == "setter" and any(on in ("SETATTR", "ALL") for on in inv_on):
+                continue
+            for exc in ("Exception", "KI", "SysExit", "GenExit"):
+                for isasync in ([False, True] if members[0][0] == "method" else [False]):
+                    for dbc in (True, False):
+                        p = class_prog(inv_on, members, [(brk, 1), (2, 1), (brk, 1)], dbc=dbc, tag="break-raise")
+                        p["fn"][brk]["out"] = [RaiseV(exc, 950)] * 3
+                        p["fn"][brk]["async"] = isasync
+                        yield p
 
 
 def fam_cancel(tier: str, rng: random.Random) -> Iterator[dict]:
